@@ -3,6 +3,7 @@ from __future__ import annotations
 
 import cmath
 import itertools
+import json
 import math
 import warnings
 from fractions import Fraction
@@ -131,6 +132,13 @@ class Polys(Stream):
         for p, q in fixed:
             yield {"op": "mul", "p": p, "q": q, "n": 0, "x": 2}
             yield {"op": "pow", "p": p, "q": q, "n": 4, "x": 2}
+        # a divisor with a STORED zero leading coefficient (`poly * 0` produces such data): the
+        # division by it happens inside the loop, i.e. only when deg(self) >= deg(other)
+        for _ in range(40 if tier == "quick" else 400):
+            p, q = rpoly(rng), rpoly(rng)
+            if q:
+                q = q[:-1] + [[q[-1][0], 0]]
+                yield {"op": "divmod", "p": p, "q": q, "n": 0, "x": 0, "zero_lead": True}
 
     def request(self, pl):
         op = pl["op"]
@@ -178,7 +186,7 @@ class Polys(Stream):
         try:
             r = self._compute(pl)
         except ZeroDivisionError:
-            if op == "divmod" and not pl["q"]:
+            if op == "divmod" and (not pl["q"] or pl["q"][-1][1] == 0):
                 return None
             return Failure("poly-raises", f"{op} raised ZeroDivisionError", pl)
         except Exception as ex:
@@ -596,6 +604,254 @@ class FftExact(Stream):
         acc["lengths"] = sorted(set(acc.get("lengths", [])) | {len(pl["x"])})
 
 
+
+# ---------------------------------------------------------------------------------------------
+# T-gen: the table interpreter run on the REGENERATED bodies (lean/PV/Generated/Algo.lean, written
+# by extract/algorithm.py from the live source) vs the real functions
+# ---------------------------------------------------------------------------------------------
+
+def _v_int(i):
+    return f"(i {int(i)})"
+
+
+def _v_terms(terms):
+    return "(t" + "".join(f" (t {_v_int(e)} {_v_int(c)})" for e, c in terms) + ")"
+
+
+def _v_poly(terms, base="x"):
+    return (f'(o Polynomial (Base (s "{base}")) (Unit (i 1)) (VarLess (o LexicalMonomialOrder)) '
+            f'(Data {_v_terms(terms)}))')
+
+
+def _v_spoly(terms, base="x"):
+    data = "(t" + "".join(f' (t {_v_int(e)} (s "{c}"))' for e, c in terms) + ")"
+    return (f'(o Polynomial (Base (s "{base}")) (Unit (i 1)) (VarLess (o LexicalMonomialOrder)) '
+            f'(Data {data}))')
+
+
+def _canon_model(x):
+    """parsed reply of the table interpreter -> comparable Python value"""
+    from ..sexp import Atom
+    if isinstance(x, Atom):
+        return {"none": ("none",), "fuel": ("fuel",)}.get(str(x), ("atom", str(x)))
+    head = str(x[0])
+    if head == "i":
+        return ("num", Fraction(int(x[1])))
+    if head == "f":
+        return ("num", Fraction(int(x[1]), int(x[2])))
+    if head == "b":
+        return ("bool", str(x[1]) == "true")
+    if head == "e":
+        return ("elem", int(x[1]))
+    if head == "s":
+        return ("sym", x[1])
+    if head in ("t", "v"):
+        return ("seq", [_canon_model(y) for y in x[1:]])
+    if head == "o":
+        fields = {str(kv[0]): _canon_model(kv[1]) for kv in x[2:]}
+        if str(x[1]) == "LexicalMonomialOrder":
+            return ("obj", "LexicalMonomialOrder", {})
+        return ("obj", str(x[1]), fields)
+    if head == "raise":
+        return ("raise", str(x[1]))
+    return ("other", str(x))
+
+
+def _canon_real(v):
+    """result of the real code -> the same comparable form"""
+    from pymbolic.polynomial import LexicalMonomialOrder, Polynomial
+    from pymbolic.primitives import Variable
+    from pymbolic.rational import Rational
+    if v is None:
+        return ("none",)
+    if isinstance(v, bool):
+        return ("bool", v)
+    if isinstance(v, int):
+        return ("num", Fraction(v))
+    if isinstance(v, float):
+        return ("num", Fraction(v))
+    if isinstance(v, Zp):
+        return ("elem", int(v.v))
+    if isinstance(v, Variable):
+        return ("sym", v.name)
+    if isinstance(v, Polynomial):
+        return ("obj", "Polynomial", {"Base": _canon_real(v.Base), "Unit": _canon_real(v.Unit),
+                                      "VarLess": _canon_real(v.VarLess), "Data": _canon_real(v.Data)})
+    if isinstance(v, LexicalMonomialOrder):
+        return ("obj", "LexicalMonomialOrder", {})
+    if isinstance(v, Rational):
+        return ("obj", "Rational", {"Numerator": _canon_real(v.Numerator),
+                                    "Denominator": _canon_real(v.Denominator)})
+    if type(v).__name__ in ("IntegerTraits", "FieldTraits", "PolynomialTraits"):
+        return ("obj", type(v).__name__, {})
+    if isinstance(v, (tuple, list)) or type(v).__name__ == "ndarray":
+        return ("seq", [_canon_real(y) for y in v])
+    return ("other", repr(v))
+
+
+TABLE_FUEL = 600
+
+
+class TableRun(Stream):
+    """T-gen: the compiled table interpreter `c19RunFn` on the regenerated table
+    (lean/PV/Generated/Algo.lean) vs the real functions — every function of the table on the inputs
+    the other streams use.  A disagreement means extract/algorithm.py mistranslated a body or the
+    table language gives a statement a wrong meaning."""
+    name = "table-run"
+
+    def cases(self, rng, tier):
+        big = tier != "quick"
+        for x in range(-3, 4):
+            for n in range(-2, 24 if big else 12):
+                yield {"fn": "algorithm.integer_power", "args": [x, n]}
+        span = range(-12, 13) if big else range(-7, 8)
+        for q in span:
+            for r in span:
+                yield {"fn": "algorithm.extended_euclidean", "args": [q, r]}
+                if (q + r) % 4 == 0:
+                    yield {"fn": "algorithm.gcd", "args": [q, r]}
+                    yield {"fn": "algorithm.lcm", "args": [q, r]}
+        for _ in range(400 if big else 40):
+            q, r = rng.randint(-10**12, 10**12), rng.randint(-10**12, 10**12)
+            yield {"fn": "algorithm.extended_euclidean", "args": [q, r]}
+        for n in range(0, 400 if big else 90):
+            yield {"fn": "algorithm.find_factors", "args": [n]}
+        for i in range(3000 if big else 420):
+            p, q = rpoly(rng), rpoly(rng)
+            op = ["Polynomial.__add__", "Polynomial.__sub__", "Polynomial.__mul__",
+                  "Polynomial.__divmod__", "Polynomial.__pow__", "Polynomial.__neg__",
+                  "polynomial._sort_uniq", "EvaluationMapper.map_polynomial", "Polynomial.degree",
+                  "IdentityMapper.map_polynomial"][i % 10]
+            if op == "polynomial._sort_uniq":
+                p = [[rng.randint(0, 4), rng.randint(-2, 2)] for _ in range(rng.randint(0, 8))]
+            if op == "Polynomial.__divmod__" and i % 7 == 3 and q:
+                q = q[:-1] + [[q[-1][0], 0]]          # a stored zero leading coefficient
+            if op == "IdentityMapper.map_polynomial":
+                names = ["a", "b", "c", "d"]
+                p = [[e, rng.choice(names)] for e, _ in p]
+                # "the same object" is modelled as "the same name": a substitution k -> k would
+                # return an equal but NOT identical object on the real code, so none is generated
+                subst = {k: rng.choice([v for v in ["x", "y", "a", "e"] if v != k])
+                         for k in rng.sample(names + ["x"], rng.randint(0, 3))}
+                yield {"fn": op, "p": p, "subst": subst}
+                continue
+            yield {"fn": op, "p": p, "q": q, "n": rng.randint(0, 4), "x": rng.randint(-3, 3)}
+        for a in range(-5, 6):
+            for b in range(-5, 6):
+                yield {"fn": "Rational.__init__", "args": [a, b]}
+        for i in range(-2, 3):
+            yield {"fn": "traits.traits", "args": [i]}
+        lengths = list(range(0, 33 if big else 13)) + ([64, 97, 128] if big else [16])
+        for n in lengths:
+            for p in primes_for(n, 1):
+                z = root_of_order(p, n) if n else 1
+                xs = [rng.randrange(p) for _ in range(n)]
+                yield {"fn": "algorithm.fft", "p": p, "z": z, "x": xs}
+                yield {"fn": "algorithm.ifft", "p": p, "z": z, "x": xs}
+
+    def request(self, pl):
+        fn = pl["fn"]
+        pre = f"(c19-table-run 0 0 0 {TABLE_FUEL} {fn}"
+        if fn == "algorithm.integer_power":
+            x, n = pl["args"]
+            return f"{pre} {_v_int(x)} {_v_int(n)} (i 1))"
+        if fn in ("algorithm.extended_euclidean", "algorithm.gcd", "algorithm.lcm",
+                  "algorithm.find_factors", "traits.traits"):
+            return f"{pre} " + " ".join(_v_int(a) for a in pl["args"]) + ")"
+        if fn == "Rational.__init__":
+            a, b = pl["args"]
+            return f"{pre} (o Rational) {_v_int(a)} {_v_int(b)})"
+        if fn == "polynomial._sort_uniq":
+            return f"{pre} {_v_terms(pl['p'])})"
+        if fn in ("Polynomial.__add__", "Polynomial.__sub__", "Polynomial.__mul__",
+                  "Polynomial.__divmod__"):
+            return f"{pre} {_v_poly(pl['p'])} {_v_poly(pl['q'])})"
+        if fn == "Polynomial.__pow__":
+            return f"{pre} {_v_poly(pl['p'])} {_v_int(pl['n'])})"
+        if fn in ("Polynomial.__neg__", "Polynomial.degree"):
+            return f"{pre} {_v_poly(pl['p'])})"
+        if fn == "EvaluationMapper.map_polynomial":
+            return f"{pre} (o EvaluationMapper (x {_v_int(pl['x'])})) {_v_poly(pl['p'])})"
+        if fn == "IdentityMapper.map_polynomial":
+            fields = " ".join(f'({k} (s "{v}"))' for k, v in sorted(pl["subst"].items()))
+            return f"{pre} (o IdentityMapper {fields}) {_v_spoly(pl['p'])} (t) (t))"
+        # fft / ifft over Z_p
+        p, z, xs = pl["p"], pl["z"], pl["x"]
+        n = len(xs)
+        vec = "(v" + "".join(f" (e {v % p})" for v in xs) + ")"
+        if fn == "algorithm.fft":
+            return (f"(c19-table-run {p} {n} {z} {TABLE_FUEL} {fn} {vec} (i 1) none none (o dtype) "
+                    f"(o np) (i 0))")
+        zinv = pow(z, -1, p)
+        return f"(c19-table-run {p} {n} {zinv} {TABLE_FUEL} {fn} {vec} none none (o dtype) (o np))"
+
+    def _real(self, pl):
+        from pymbolic import algorithm as al
+        from pymbolic import var
+        from pymbolic.mapper.evaluator import EvaluationMapper
+        from pymbolic.mapper.substitutor import SubstitutionMapper, make_subst_func
+        from pymbolic.polynomial import Polynomial, _sort_uniq
+        from pymbolic.rational import Rational
+        from pymbolic.traits import traits
+        fn = pl["fn"]
+        if fn == "algorithm.integer_power":
+            return al.integer_power(*pl["args"])
+        if fn in ("algorithm.extended_euclidean", "algorithm.gcd", "algorithm.lcm",
+                  "algorithm.find_factors"):
+            return getattr(al, fn.split(".")[1])(*pl["args"])
+        if fn == "traits.traits":
+            return traits(*pl["args"])
+        if fn == "Rational.__init__":
+            return Rational(*pl["args"])
+        if fn == "polynomial._sort_uniq":
+            return _sort_uniq([tuple(t) for t in pl["p"]])
+        if fn == "IdentityMapper.map_polynomial":
+            poly = Polynomial(var("x"), tuple((int(e), var(c)) for e, c in pl["p"]))
+            sub = {var(k): var(v) for k, v in pl["subst"].items()}
+            return SubstitutionMapper(make_subst_func(sub))(poly)
+        if fn in ("algorithm.fft", "algorithm.ifft"):
+            p, z, xs = pl["p"], pl["z"], pl["x"]
+            return (exact_fft if fn.endswith(".fft") else exact_ifft)(p, len(xs), z, xs)
+        a = P(pl["p"])
+        if fn == "Polynomial.__neg__":
+            return -a
+        if fn == "Polynomial.degree":
+            return a.degree
+        if fn == "Polynomial.__pow__":
+            return a ** pl["n"]
+        if fn == "EvaluationMapper.map_polynomial":
+            return EvaluationMapper({"x": pl["x"]})(a)
+        b = P(pl["q"])
+        return {"Polynomial.__add__": lambda: a + b, "Polynomial.__sub__": lambda: a - b,
+                "Polynomial.__mul__": lambda: a * b, "Polynomial.__divmod__": lambda: divmod(a, b)}[fn]()
+
+    def run_impl(self, pl):
+        try:
+            r = self._real(pl)
+        except (RuntimeError, ZeroDivisionError, IndexError, AssertionError, TypeError) as ex:
+            return repr(("raise", type(ex).__name__))
+        if pl["fn"] in ("algorithm.fft", "algorithm.ifft"):
+            return repr(("seq", [("elem", int(v)) for v in r]))
+        return repr(_canon_real(r))
+
+    def agree(self, model, impl, pl):
+        from ..sexp import loads
+        try:
+            got = repr(_canon_model(loads(model)))
+        except Exception:
+            return "diff"
+        if got == impl:
+            return "ok"
+        if "stuck" in model and "int ** negative" in model:
+            return "trivial"            # the table language leaves the integers: no claim
+        return "diff"
+
+    def nontrivial_key(self, pl, model, impl):
+        return json.dumps(pl, sort_keys=True)
+
+    def stats(self, pl, mo, io, acc):
+        acc[pl["fn"]] = acc.get(pl["fn"], 0) + 1
+
 def probes():
     """Defects repaired by fix: commits — reported again if they ever return."""
     from pymbolic import evaluate, var
@@ -627,20 +883,31 @@ def probes():
     return res
 
 
+def extract(ctx=None):
+    """lean/PV/Generated/Algo.lean from the live source of algorithm.py, polynomial.py, traits.py,
+    rational.py, mapper/evaluator.py, mapper/__init__.py (extract/algorithm.py)"""
+    from extract.algorithm import extract_algorithm
+    return extract_algorithm(ctx)
+
+
 PROP = Prop(
     id="C19",
     title="Exact-arithmetic helpers and number types compute what they claim",
-    lean_targets=["PV.Properties.C19", "PV.Properties.C19Fft"],
+    lean_targets=["PV.Properties.C19", "PV.Properties.C19Fft", "PV.Properties.C19Table"],
     theorems=[],
-    streams=[Arith(), Polys(), FftExact(), Runtime()],
+    extractors=[extract],
+    streams=[Arith(), Polys(), FftExact(), TableRun(), Runtime()],
     probes=[probes],
     trusted_base=["Lean 4.33 kernel; axioms propext, Classical.choice, Quot.sound only",
                   "harness/props/c19.py; CPython big integers",
                   "FFT arithmetic: proved for every commutative ring on the model and tied to the real fft/ifft EXACTLY over Z_p "
                   "through a custom_np stand-in (harness/props/c19.py: ExactNp, Zp) that maps exp(sign*-2j*pi*k/m) back to z**(n*k/m); "
-                  "the floating-point complex exp of numpy itself and the symbolic FFT are runtime-checked against the O(n^2) DFT with a tolerance only"],
+                  "the floating-point complex exp of numpy itself and the symbolic FFT are runtime-checked against the O(n^2) DFT with a tolerance only",
+                  "extract/algorithm.py (ast reader of the function bodies under this property; unknown shapes are errors) and the meaning "
+                  "PV/Model/AlgoTable.lean gives the statement language — both exercised by the table-run stream (compiled table interpreter on the "
+                  "regenerated table vs the real functions)"],
     level_text='Lean theorems (unbounded): integer_power = x^n in every monoid (negative n refused); extended Euclid satisfies Bezout and returns a gcd up to sign (sign rule proved), lcm consistent; find_factors factorises, FFT index splitting is a bijection; the whole fft recursion (Cooley-Tukey split by find_factors, sub-transforms with their own roots, twiddles, recombination, length-1 and prime base cases) computes the DFT sum_j z^(kj) x_j over EVERY commutative ring for every n >= 1 and every z with z^n = 1 (no primitivity needed), ifft inverts it exactly when n is invertible and z is a principal n-th root (necessary and sufficient; primitive roots in domains are principal), and the Z_p instance run by the driver equals the DFT mod p; sparse polynomial +,-,*,**,divmod are homomorphic to evaluation, _sort_uniq preserves value and sorts, Horner evaluation equals the sum of terms. Tied to the code by correspondence on big integers and random sparse polynomials, and for fft/ifft by EXACT comparison of the real functions run over Z_p (custom_np stand-in) with the model for all lengths 0..64 and longer ones; fft/ifft on complex floats and sym_fft are additionally compared with the O(n^2) DFT numerically (runtime part).',
-    level_note='Trusted: Lean kernel; harness; CPython big integers. Floating-point rounding of the complex FFT (numpy exp/multiply) and the symbolic FFT, polynomial division over fields and mixed bases are not modelled; matrices and mapper traversal of polynomials are checked by oracles on the real code only.',
+    level_note='T-gen: the bodies of integer_power, extended_euclidean, gcd, lcm, find_factors, fft, ifft, _sort_uniq, the Polynomial methods, traits, Rational.__init__ and the two map_polynomial handlers are re-read from the source on every run into a small imperative language; the hand-written loop functions (integerPowerLoop, extEuclid, findFactors, sortUniq, add, mulRaw/mul, pow, divmodLoop, hornerLoopPy, c19FftStep/c19FftAux) are proved equal to the interpreter of the regenerated bodies for all inputs (PV/Properties/C19Table.lean), so a behaviour-changing source edit breaks an obligation and the streams give the failing input. Trusted: Lean kernel; harness; CPython big integers. Floating-point rounding of the complex FFT (numpy exp/multiply) and the symbolic FFT, polynomial division over fields and mixed bases are not modelled; matrices and mapper traversal of polynomials are checked by oracles on the real code only.',
     technique='Lean 4 proofs about loop-faithful models (well-founded recursion, Mathlib Monoid/Int lemmas) + differential correspondence + numeric DFT oracle',
     design_ref="DESIGN.md §4 C19",
 )
